@@ -29,11 +29,13 @@ pub struct SimpCase {
     pub pick: u32,
     pub swaps: Vec<(u32, u32)>,
     pub known: String,
+    /// source "subgroup": generators of the subgroup whose cover is taken (crate generator numbering, letters mapped into range)
+    pub words: Vec<Vec<i64>>,
 }
 
 impl Case for SimpCase {
     fn encode(&self) -> Value {
-        json!({"base": self.base.encode(), "source": self.source, "k": self.k, "pick": self.pick, "swaps": self.swaps.iter().map(|s| json!([s.0, s.1])).collect::<Vec<_>>(), "known_euclidean": self.known})
+        json!({"base": self.base.encode(), "source": self.source, "k": self.k, "pick": self.pick, "swaps": self.swaps.iter().map(|s| json!([s.0, s.1])).collect::<Vec<_>>(), "known_euclidean": self.known, "subgroup_words": self.words})
     }
     fn decode(v: &Value) -> Option<Self> {
         Some(SimpCase {
@@ -43,6 +45,7 @@ impl Case for SimpCase {
             pick: v.get("pick")?.as_u64()? as u32,
             swaps: v.get("swaps")?.as_array()?.iter().filter_map(|p| Some((p.get(0)?.as_u64()? as u32, p.get(1)?.as_u64()? as u32))).collect(),
             known: v.get("known_euclidean").and_then(|k| k.as_str()).unwrap_or("").to_string(),
+            words: v.get("subgroup_words").and_then(dec_words).unwrap_or_default(),
         })
     }
     fn weight(&self) -> usize {
@@ -102,6 +105,26 @@ fn derive_input(c: &SimpCase) -> Result<DS, String> {
             }
             guarded(|| DS::from_dsym(&finite_universal_cover(&x.to_partial()))).map_err(|_| "finite_universal_cover panicked (C05's subject)".to_string())?
         }
+        "subgroup" => {
+            // the cover belonging to a subgroup of finite index given by words: for a symbol with finite
+            // group and a freely acting subgroup this is a spherical space form (lens spaces etc.)
+            let cp = crate::props::c09::crate_presentation(x, false).map_err(|_| "presentation invalid (C09's subject)".to_string())?;
+            let g = cp.nr_gens as i64;
+            if g == 0 {
+                return Err("trivial group".into());
+            }
+            let words: Vec<Word> = c.words.iter().map(|w| free_reduce(&w.iter().map(|&l| { let a = (l.abs() - 1) % g + 1; if l > 0 { a } else { -a } }).collect::<Vec<_>>())).filter(|w| !w.is_empty()).collect();
+            match todd_coxeter(cp.nr_gens, &cp.rels, &words, 4000) {
+                Some(t) if t.len() * x.size <= 2500 && t.len() >= 2 => {}
+                _ => return Err("subgroup of infinite / too large / trivial index".into()),
+            }
+            let fws: Vec<rust_dsymbols::fpgroups::free_words::FreeWord> = words.iter().map(|w| crate::props::c11::fw(w)).collect();
+            let y = guarded(|| DS::from_dsym(&rust_dsymbols::covers::subgroup_cover(&x.to_partial(), &fws))).map_err(|_| "subgroup_cover panicked (C05's subject)".to_string())?;
+            if check_projection(x, &y).is_err() {
+                return Err("subgroup_cover is not a covering (C05's subject)".into());
+            }
+            y
+        }
         "cover" => {
             let list = guarded(|| covers(&x.to_partial(), c.k)).map_err(|_| "covers panicked (C05's subject)".to_string())?;
             let good: Vec<DS> = list.iter().map(|y| DS::from_dsym(y)).filter(|y| branch_free(y) && is_oriented(y) && y.is_connected() && check_projection(x, y).is_ok()).collect();
@@ -157,7 +180,12 @@ fn check_simp(c: &SimpCase, obs: &mut Obs) -> Result<(), String> {
             Ok(o) => outs.push((which, o)),
         }
     }
-    let finite_input = c.source == "universal";
+    // finite fundamental group: by construction (universal cover) or by the harness's own coset enumeration
+    let finite_input = c.source == "universal" || {
+        let p = simplify_presentation(&own_fundamental_group(&input).pres);
+        p.nr_gens == 0 || todd_coxeter(p.nr_gens, &p.rels, &[], 3000).is_some()
+    };
+    obs.classify(finite_input && c.source != "universal", "finite group, not a universal cover (space form)");
     let mut keys = vec![];
     for (which, o) in &outs {
         let out = match o {
@@ -235,36 +263,60 @@ pub fn run(ctx: &mut Ctx) {
     let sw = |k: usize| vec![((k as u32).wrapping_mul(0x9e37_79b9), (k as u32 + 3).wrapping_mul(0x85eb_ca6b)), ((k as u32).wrapping_mul(0x27d4_eb2f), (k as u32 + 11).wrapping_mul(0x1656_67b1))];
     for n in 1..=maxn {
         for (k, s) in symbols_of_size(n, &CRYSTALLOGRAPHIC).into_iter().enumerate() {
-            cases.push(SimpCase { base: s, source: "ptc".into(), k: 0, pick: 0, swaps: sw(k), known: String::new() });
+            cases.push(SimpCase { base: s, source: "ptc".into(), k: 0, pick: 0, swaps: sw(k), known: String::new(), words: vec![] });
         }
     }
     for (k, c) in corpus_cases(t.pick(4, 6)).into_iter().enumerate() {
-        cases.push(SimpCase { base: c.ds, source: "ptc".into(), k: 0, pick: 0, swaps: sw(k), known: c.known });
+        cases.push(SimpCase { base: c.ds, source: "ptc".into(), k: 0, pick: 0, swaps: sw(k), known: c.known, words: vec![] });
     }
     // pseudo-toroidal covers of 2-sheeted covers of the known-euclidean corpus
     let stride = t.pick(6, 2);
     for (k, c) in corpus_cases(t.pick(4, 6)).into_iter().enumerate() {
         if c.known == "literature corpus" || k % stride == 0 {
-            cases.push(SimpCase { base: c.ds, source: "ptc2".into(), k: 2, pick: (k as u32).wrapping_mul(0x9e37_79b9), swaps: sw(k + 1), known: format!("2-sheeted cover of: {}", c.known) });
+            cases.push(SimpCase { base: c.ds, source: "ptc2".into(), k: 2, pick: (k as u32).wrapping_mul(0x9e37_79b9), swaps: sw(k + 1), known: format!("2-sheeted cover of: {}", c.known), words: vec![] });
         }
     }
     // quotients of the cubic tiling by space groups (known euclidean) and cubical manifolds of known topology
     for (k, c) in crate::props::c17::cubic_cases(t.pick(400, 4000), t.pick(3, 4)).into_iter().enumerate() {
-        cases.push(SimpCase { base: c.ds, source: "ptc".into(), k: 0, pick: 0, swaps: sw(k), known: c.known });
+        cases.push(SimpCase { base: c.ds, source: "ptc".into(), k: 0, pick: 0, swaps: sw(k), known: c.known, words: vec![] });
     }
     for (k, c) in crate::props::c17::manifold_cases(t.pick(3, 12), true).into_iter().enumerate() {
         if c.kind == "weak" {
-            cases.push(SimpCase { base: c.ds, source: "ptc".into(), k: 0, pick: 0, swaps: sw(k), known: c.known });
+            cases.push(SimpCase { base: c.ds, source: "ptc".into(), k: 0, pick: 0, swaps: sw(k), known: c.known, words: vec![] });
         } else {
-            cases.push(SimpCase { base: c.ds, source: "self".into(), k: 0, pick: 0, swaps: sw(k), known: String::new() });
+            cases.push(SimpCase { base: c.ds, source: "self".into(), k: 0, pick: 0, swaps: sw(k), known: String::new(), words: vec![] });
         }
     }
     // class (B): branching up to 5
     for n in 1..=t.pick(2, 3) {
         for (k, s) in symbols_of_size(n, &[1, 2, 3, 4, 5]).into_iter().enumerate() {
-            cases.push(SimpCase { base: s.clone(), source: "universal".into(), k: 0, pick: 0, swaps: sw(k), known: String::new() });
+            cases.push(SimpCase { base: s.clone(), source: "universal".into(), k: 0, pick: 0, swaps: sw(k), known: String::new(), words: vec![] });
             if k % 3 == 0 {
-                cases.push(SimpCase { base: s, source: "cover".into(), k: t.pick(6, 8), pick: (k as u32).wrapping_mul(0x9e37_79b9), swaps: sw(k), known: String::new() });
+                cases.push(SimpCase { base: s, source: "cover".into(), k: t.pick(6, 8), pick: (k as u32).wrapping_mul(0x9e37_79b9), swaps: sw(k), known: String::new(), words: vec![] });
+            }
+        }
+    }
+    // spherical space forms: covers of finite-group symbols belonging to (mostly cyclic) subgroups given by
+    // pseudo-random words; the route keeps those that act freely (branch-free oriented manifold covers)
+    {
+        let mut bases: Vec<DS> = ["<1.1:1 3:1,1,1,1:3,3,3>", "<1.1:1 3:1,1,1,1:4,3,3>", "<1.1:1 3:1,1,1,1:3,3,4>", "<1.1:1 3:1,1,1,1:3,4,3>", "<1.1:1 3:1,1,1,1:5,3,3>", "<1.1:1 3:1,1,1,1:3,3,5>"].iter().filter_map(|t| DS::parse(t)).collect();
+        let regular = bases.len();
+        for n in 1..=2 {
+            bases.extend(symbols_of_size(n, &[1, 2, 3, 4, 5]));
+        }
+        for (bi, b) in bases.iter().enumerate() {
+            let trials = if bi < regular { t.pick(400, 4000) } else { t.pick(3, 12) };
+            for tr in 0..trials {
+                let mut h = ((bi as u64) << 32 | tr as u64).wrapping_add(1).wrapping_mul(0x9e37_79b9_7f4a_7c15);
+                let mut next = || {
+                    h ^= h >> 29;
+                    h = h.wrapping_mul(0xbf58_476d_1ce4_e5b9);
+                    h ^= h >> 32;
+                    (h & 0xffff_ffff) as u32
+                };
+                let nw = if next() % 5 == 0 { 2 } else { 1 };
+                let words: Vec<Vec<i64>> = (0..nw).map(|_| { let len = 1 + next() % 10; (0..len).map(|_| { let l = 1 + (next() % 6) as i64; if next() % 2 == 0 { l } else { -l } }).collect() }).collect();
+                cases.push(SimpCase { base: b.clone(), source: "subgroup".into(), k: 0, pick: 0, swaps: sw(tr), known: String::new(), words });
             }
         }
     }
@@ -279,7 +331,7 @@ pub fn run(ctx: &mut Ctx) {
     };
     ctx.note(format!("{} of {} candidate (symbol, route) pairs yield an input for simplify", cases.len(), total_candidates));
     let n = cases.len();
-    ctx.run_par(&SUB_SIMP, cases.clone(), Some(&format!("{} cases: pseudo-toroidal covers of all 3D symbols with spherical links (<= {} chambers), of the literature corpus, the products and the space-group quotients of the cubic / prism tilings; cubical 3-manifolds of known topology (connected sums by tile surgery) as they are; finite universal covers and branch-free covers of the symbols with branching <= 5 (<= {} chambers)", n, maxn, t.pick(2, 3))));
+    ctx.run_par(&SUB_SIMP, cases.clone(), Some(&format!("{} cases: pseudo-toroidal covers of all 3D symbols with spherical links (<= {} chambers), of the literature corpus, the products and the space-group quotients of the cubic / prism tilings; cubical 3-manifolds of known topology (connected sums by tile surgery) as they are; finite universal covers and branch-free covers of the symbols with branching <= 5 (<= {} chambers); covers belonging to freely acting subgroups given by pseudo-random words (spherical space forms) of the six regular spherical symbols and of the finite-group symbols with <= 2 chambers", n, maxn, t.pick(2, 3))));
     ctx.layer("random");
     let pool = Arc::new(cases);
     ctx.run_prop(
